@@ -144,3 +144,21 @@ func (tree *Tree[T]) buildMethods(num int, methods ...string) {
 
 	buildMethodIndexes(tree.node.methodIndex)
 }
+
+// 根据现有的节点重新统计各个请求方法的数量
+func (tree *Tree[T]) recountMethods() {
+	clear(tree.methods)
+	tree.node.countMethods(tree.methods)
+	tree.buildMethods(0)
+}
+
+func (n *node[T]) countMethods(methods map[string]int) {
+	for _, c := range n.children {
+		for m := range c.handlers {
+			if m != http.MethodOptions && m != http.MethodHead && m != methodNotAllowed {
+				methods[m]++
+			}
+		}
+		c.countMethods(methods)
+	}
+}
